@@ -611,8 +611,10 @@ def loaded_index(ratings):
     return out
 
 
-def compare_entry(ctx, e, r, desc, allow_user=None):
-    """stored entry ``e`` (model) against loaded rating dict ``r``"""
+def compare_entry(ctx, env, e, r, desc, allow_user=None):
+    """stored entry ``e`` (model) against loaded rating dict ``r``; the descriptor names the step and the
+    file / preprocessing of the *entry*"""
+    desc = dict(desc, file=env.files[e.fidx]["label"], preproc=env.fits[e.sidx]["preproc"])
     ds = r["data_set"]
     for col in COLUMNS:
         d = dict(desc, column=col)
@@ -672,9 +674,16 @@ def check_rated(ctx, env, path, model, tainted, desc):
                               f"hdf5_rated says ({rated!r}, {rating!r}, {comment!r})")
 
 
+def state_flags(env, model, spec=None):
+    """categorical facts about the container content that belong into every descriptor"""
+    forms = [env.fits[e.sidx]["range_form"] for e in model.values()] + ([spec["range_form"]] if spec else [])
+    return {"range_form": "numpy"} if "numpy" in forms else {}
+
+
 def check_container(ctx, env, path, model, tainted, desc, relaxed=None, unreadable="load-raises", skip=()):
     """dump + load the container and compare every intact model entry; returns (dump, ratings)"""
     from nanite.rate import io as rio
+    desc = dict(desc, **state_flags(env, model))
     try:
         dmp = dump(path)
     except (KeyboardInterrupt, SystemExit, MemoryError):
@@ -701,7 +710,7 @@ def check_container(ctx, env, path, model, tainted, desc, relaxed=None, unreadab
         if not ctx.check(len(got) == 1, "stored-entry-missing", desc,
                          f"{e.idd}: {len(got)} loaded ratings for this curve; loaded keys {sorted(idx)}"):
             continue
-        compare_entry(ctx, e, got[0], desc, allow_user=(relaxed or {}).get(key))
+        compare_entry(ctx, env, e, got[0], desc, allow_user=(relaxed or {}).get(key))
         node = dmp.get("/data/" + key[0])
         f = env.files[e.fidx]
         # (two measurement files with the same content share one embedded copy)
@@ -772,7 +781,7 @@ def interpret(case, ctx, env, stats):
             stats["classes"].append("load-" + op["how"])
             if not env.container.exists():
                 continue
-            desc = {"step": "load", "how": op["how"]}
+            desc = dict({"step": "load", "how": op["how"]}, **state_flags(env, model))
             with ctx.no_raise("load-raises", desc):
                 if op["how"] == "manager":
                     rm = rio.RateManager(env.container)
@@ -836,8 +845,7 @@ def interpret(case, ctx, env, stats):
         change = spec_change(env.fits[stored.sidx], env.fits[sidx]) if stored is not None else "none"
         spec = env.fits[sidx]
         desc = {"step": kind, "file": env.files[fidx]["label"], "preproc": spec["preproc"]}
-        if spec["range_form"] != "list":
-            desc["range_form"] = spec["range_form"]
+        desc.update(state_flags(env, model, spec))
         if kind in ("other", "ambiguous"):
             desc["change"] = change
         stats["classes"].append("save-" + kind)
